@@ -10,9 +10,12 @@ of slots, workers, chunks, writer jobs, loaders, files.
 * `Snap`    — `Repository.snapshot`: `_chunk_producer` → `chunk_queue` (bounded) → `_worker` × N, `abort`, final upload (S2)
 * `Locks`   — `Repository.restore._write_chunk_ref`: `glock`, `flocks`, `flocks_refcounts` (S3, writers)
 * `Fin`     — `Repository.restore._download_chunk`: pending digest sets, `files_metadata.pop` (S3, loaders / finaliser)
+* `Life`    — slot requests of loader threads against the life of the event loop (S1′)
+* `Lat`     — slot requests under transfer latency: a virtual clock, `delay`, and the expiry of a *bounded* request (S1″)
 
 Shapes read from the source on every run (`Replicat.Gen`, tools/sections/09_sched.py): slot numbering, release-in-`finally`,
-the worker's loop test, the abort protocol, the delete-at-zero guard of the lock table and — as *parameters* of `Fin` / `Snap`, so
+the worker's loop test, the abort protocol, the delete-at-zero guard of the lock table, whether the slot request gives up after
+a time-out (`slotWaitBounded`, `slotWaitTimeoutMs`; `unmodelledTimedWaits` lists finite waits the model has no transition for) and — as *parameters* of `Fin` / `Snap`, so
 that the other behaviour stays expressible — whether the emptiness decision is taken under the lock, and whether the producer's
 `chunk_queue.put` is a loop of timed attempts that re-tests the abort flag (or one blocking call).
 
@@ -428,5 +431,59 @@ def Life.step (joins : Bool) (σ : Life) : LifeEv → Option Life
     else none
   | .cancelWaiter => if σ.returned ∧ !σ.closed ∧ 0 < σ.waiting then some { σ with waiting := σ.waiting - 1, failed := true } else none
   | .close => if σ.returned ∧ !σ.closed then some { σ with closed := true } else none
+
+/-! ## S1″ — slot requests under transfer latency (virtual time)
+
+How long a backend transfer takes is not in the hands of replicat: between the start and the end of a transfer any amount of time
+may pass.  `delay d` lets `d` milliseconds pass (at any moment: an over-approximation).  A slot request is stamped with the time
+it was issued; if the request is a *bounded* wait (`tmo = some T`: `….result(timeout=T)`, `wait_for(…, T)`) it may give up once
+`T` ms have passed (`expire`), and the job that issued it raises although no transfer failed.  With `tmo = none` (the request
+blocks until a slot is free — `Gen.slotWaitBounded = false`) there is no such transition.  Counters only (threads are anonymous);
+the slot queue serves its waiters first-come first-served. -/
+
+structure Lat where
+  free : Nat             -- slots in the queue
+  held : Nat             -- slots held by a job whose transfer is in flight
+  waiting : List Nat     -- one entry per blocked request: the time it was issued (oldest first)
+  queued : Nat           -- jobs that have not asked for a slot yet
+  done : Nat             -- jobs whose transfer completed
+  timedOut : Nat         -- jobs that gave up waiting and raised
+  now : Nat              -- virtual clock (ms)
+deriving Repr, DecidableEq
+
+inductive LatEv
+  | request            -- a job asks for a slot
+  | grant              -- the queue hands a free slot to the oldest waiter; its transfer starts
+  | finish             -- a transfer completes (after whatever time it took); the slot goes back
+  | delay (d : Nat)    -- `d` ms pass (a transfer takes its time)
+  | expire             -- the oldest bounded request whose time is up gives up: the job raises
+deriving Repr, DecidableEq
+
+def Lat.init (n jobs : Nat) : Lat := ⟨Gen.slotCount n, 0, [], jobs, 0, 0, 0⟩
+
+/-- the bound of the slot request as the source has it -/
+def Lat.tmo : Option Nat := if Gen.slotWaitBounded then some Gen.slotWaitTimeoutMs else none
+
+def Lat.step (tmo : Option Nat) (σ : Lat) : LatEv → Option Lat
+  | .request => if 0 < σ.queued then some { σ with queued := σ.queued - 1, waiting := σ.waiting ++ [σ.now] } else none
+  | .grant =>
+    match σ.waiting with
+    | _ :: rest => if 0 < σ.free then some { σ with waiting := rest, free := σ.free - 1, held := σ.held + 1 } else none
+    | [] => none
+  | .finish => if 0 < σ.held then some { σ with held := σ.held - 1, free := σ.free + 1, done := σ.done + 1 } else none
+  | .delay d => some { σ with now := σ.now + d }
+  | .expire =>
+    match tmo, σ.waiting with
+    | some T, t₀ :: rest => if t₀ + T ≤ σ.now then some { σ with waiting := rest, timedOut := σ.timedOut + 1 } else none
+    | _, _ => none
+
+/-- the events other than the passage of time -/
+def Lat.moves : List LatEv := [.request, .grant, .finish, .expire]
+
+/-- nothing is queued, waiting or in flight any more -/
+def Lat.quiet (σ : Lat) : Bool := σ.queued == 0 && σ.waiting.isEmpty && σ.held == 0
+
+/-- one slot, two jobs: the second request waits while the first transfer takes `d` ms -/
+def Lat.slowSchedule (d : Nat) : List LatEv := [.request, .grant, .request, .delay d, .expire]
 
 end Replicat.Sched
